@@ -16,6 +16,7 @@
 //!              scw <w> | scr <r> (status condition restricted to the deadline status: trigger 0/1)
 //!              wb <writer> <key> <len> <seed>  (write, reports simulated time elapsed in the call)
 //!              now                              (simulated clock, ns)
+//!              fault clear                      (forget all fault rules)
 //!              hist <w>  (not available through the API; omitted)
 //!  * a scenario that does not finish within 20 s of wall time is reported as HANG.
 //!
@@ -497,6 +498,10 @@ impl World {
                 let k = self.sim.pump(max, &mut |p| World::filter(&mut rules, p));
                 self.rules = rules;
                 format!("net {}", k)
+            }
+            "fault" if t.get(1) == Some(&"clear") => {
+                self.rules.clear();
+                "f".into()
             }
             "fault" => {
                 let action = match t[1] {
